@@ -7,10 +7,17 @@ CONSTANTS
  DevVolOverwritten = FALSE
  DevUserRegen = FALSE
  DevRecentre = FALSE
+ DevKeySites = FALSE
+ DevProcForgets = FALSE
+ LargeN = 16
 INVARIANT Tagged
 INVARIANT UserTemplateWins
 INVARIANT UserVolumeWins
 INVARIANT UserTemplateUnchanged
+INVARIANT KeySitesAgree
+INVARIANT GeneratedOnce
+INVARIANT OneTemplatePerKey
+INVARIANT SizeBelongs
 INVARIANT DomainOKOnce
 PROPERTY UserSticks
 CHECK_DEADLOCK FALSE
